@@ -314,6 +314,51 @@ struct Machine {
       }
       c.count("c14:evaluations-repeated");
     }
+    // Predicates and forms are reads as well. Observing them after every
+    // write also fills whatever an implementation might remember per object,
+    // so that a later mutation path that forgets to invalidate it shows at
+    // the observation after that write (C15, C06, C07).
+    {
+      using namespace bspline::integration;
+      const bool zero = model::dzerop(den);
+      try {
+        if (s.isZero() != zero)
+          viol("C15", std::string("isZero/after-") + curStep,
+               splineStr(s) + ": isZero() says " + (zero ? "false" : "true"));
+        if (!(s == s) || (s != s))
+          viol("C15", std::string("reflexive/after-") + curStep, splineStr(s));
+        c.count("c15:predicates-after-write");
+        R sp(0), spS(0), lf(0), lfS(0);
+        const AbsM aa = absOf(s);
+        for (size_t k = w.start; k + 1 < w.end; k++) {
+          const R h = (gridPts[k + 1] - gridPts[k]) / 2;
+          auto absInt = [&](const Poly &S) {
+            R r(0), hp = h;
+            for (size_t j = 0; j < S.size(); j++) {
+              r += S[j] * 2 * hp / R(j + 1);
+              hp *= h;
+            }
+            return r;
+          };
+          sp += model::pintegral(model::pmul(den.pc[k], den.pc[k]), gridPts[k], gridPts[k + 1]);
+          spS += absInt(model::pmul(aa[k], aa[k]));
+          lf += model::pintegral(den.pc[k], gridPts[k], gridPts[k + 1]);
+          lfS += absInt(aa[k]);
+        }
+        Verdict v1 = agreeScalar(ScalarProduct{}(s, s), sp, spS);
+        if (!v1.ok)
+          viol("C06", std::string("self-scalar-product/after-") + curStep,
+               splineStr(s) + ": " + v1.why);
+        Verdict v2 = agreeScalar(LinearForm{}(s), lf, lfS);
+        if (!v2.ok)
+          viol("C07", std::string("linear-identity/after-") + curStep,
+               splineStr(s) + ": " + v2.why);
+        c.count("forms:after-write");
+      } catch (const std::exception &e) {
+        viol("C15", std::string("observation-throws/after-") + curStep,
+             splineStr(s) + " threw " + e.what());
+      }
+    }
   }
   void evalWritten() {
     for (auto &wsl : writeSet) {
